@@ -96,6 +96,8 @@ def c03(prog, obs, impl):
                             fails.append((i, f"well {j} of plate {d['name']} holds {float(c['vol'])!r} uL, the plate was made with {float(cap)!r} uL per well"))
                             break
                 for c in containers_of(d):
+                    if c.get('nonfinite'):
+                        fails.append((i, f"a returned value holds a non-finite amount or volume: {c['nonfinite'][:160]}"))
                     for s, a in c['cont'].items():
                         if a < 0:
                             fails.append((i, f"negative amount {float(a)!r} of substance {s} in a returned value"))
@@ -131,7 +133,7 @@ def c03(prog, obs, impl):
             if b != 'U' and q > 0 and cur > q * (1 + margin) and (o['ok'] or o['exc'] != 'ValueError'):
                 fails.append((i, f"fill_to {dsl.qty_str(op['q'])} below the current {float(cur)!r} {b} "
                                  f"{'was accepted' if o['ok'] else 'raised ' + o['exc']}"))
-            if b != 'U' and q > 0 and cur < q * (1 - margin) and sd['kind'] != 'Enzyme':
+            if b != 'U' and q > 0 and cur < q * (1 - margin) and sd['kind'] != 'Enzyme' and amount_in(sd, F(1), b) != 0:
                 addvol = amount_in(sd, F(1), 'L') / amount_in(sd, F(1), b) * (q - cur) * 10**6   # uL of solvent added
                 if (c['max'] is None or c['vol'] + addvol <= c['max'] * (1 - margin)) and not o['ok']:
                     fails.append((i, f"feasible fill_to {dsl.qty_str(op['q'])} refused: {o['exc']} {o.get('msg')}"))
@@ -210,6 +212,10 @@ def c10(prog, obs, impl):
                 for (cobj, c, x) in zip(obj.wells.flatten(), ds, vols.flatten()):
                     if abs(F(float(x)) - c['vol']) > F(1, 2) + F(1, 10**6):   # uL is displayed with 0 decimals
                         fails.append((i, f"Plate.get_volumes reports {x} uL for a well holding {float(c['vol'])!r} uL"))
+                # the default-unit read-outs are the explicit ones in the configured display unit (uL: 0 decimals, umol: 1 decimal)
+                dv = obj.get_volumes()
+                if not numpy.array_equal(numpy.asarray(dv), numpy.asarray(vols)):
+                    fails.append((i, f"Plate.get_volumes() without a unit reports {numpy.asarray(dv).flatten()[:4]}, with unit='uL' (the configured display unit) {numpy.asarray(vols).flatten()[:4]}"))
                 sset = obj.get_substances()
                 exp = {s for c in ds for s in c['cont']}
                 if {impl.byname[s.name] for s in sset} != exp:
@@ -217,6 +223,9 @@ def c10(prog, obs, impl):
                 for sid in list(exp)[:2]:
                     sd = [s for s in subs if s['id'] == sid][0]
                     mol = obj.get_moles(impl.subs[sid], unit='umol')
+                    dm = obj.get_moles(impl.subs[sid])
+                    if not numpy.array_equal(numpy.asarray(dm), numpy.asarray(mol)):
+                        fails.append((i, f"Plate.get_moles(substance {sid}) without a unit reports {numpy.asarray(dm).flatten()[:4]}, with unit='umol' (the configured display unit) {numpy.asarray(mol).flatten()[:4]}"))
                     for c, x in zip(ds, mol.flatten()):
                         e = F(0) if sd['kind'] == 'Enzyme' else c['cont'].get(sid, F(0))
                         if abs(F(float(x)) - e) > F(6, 100):     # umol displayed with 1 decimal
